@@ -4,6 +4,8 @@ import (
 	"context"
 	"errors"
 	"fmt"
+	"github.com/oklog/ulid/v2"
+	"log/slog"
 	"math"
 	"os"
 	"path/filepath"
@@ -70,6 +72,7 @@ type image struct {
 }
 
 type exec struct {
+	failArm  int                // block writes / compactions that fail next (injected "disk full")
 	starting bool               // inside the reopen of a restart: IO seen now belongs to the start-up of the next process lifetime
 	shardOf  map[string]uint64  // C18: "<n>|<series>" -> shard index seen earlier in this run
 	delTimes map[string][]int64 // C12: timestamps deleted so far, per series
@@ -323,6 +326,33 @@ func seriesLabels(i int) labels.Labels {
 	return labels.FromStrings("__name__", "m", "s", fmt.Sprint(i), "job", "a")
 }
 
+// faultyCompactor fails the next failArm block writes / compactions the way a full disk would (before anything is
+// written); everything else goes to the real LeveledCompactor.
+type faultyCompactor struct {
+	tsdb.Compactor
+	e *exec
+}
+
+var errInjectedNoSpace = errors.New("injected fault: no space left on device")
+
+func (c *faultyCompactor) Write(dest string, b tsdb.BlockReader, mint, maxt int64, base *tsdb.BlockMeta) ([]ulid.ULID, error) {
+	if c.e.failArm > 0 {
+		c.e.failArm--
+		c.e.res.Count("fault:compaction-write-error", 1)
+		return nil, errInjectedNoSpace
+	}
+	return c.Compactor.Write(dest, b, mint, maxt, base)
+}
+
+func (c *faultyCompactor) Compact(dest string, dirs []string, open []*tsdb.Block) ([]ulid.ULID, error) {
+	if c.e.failArm > 0 {
+		c.e.failArm--
+		c.e.res.Count("fault:compaction-write-error", 1)
+		return nil, errInjectedNoSpace
+	}
+	return c.Compactor.Compact(dest, dirs, open)
+}
+
 func (e *exec) buildOpts() *tsdb.Options {
 	c := e.cfg
 	o := tsdb.DefaultOptions()
@@ -351,6 +381,18 @@ func (e *exec) buildOpts() *tsdb.Options {
 	}
 	o.EnableHistogramSTEncoding = c.HistST
 	o.EnableSharding = c.Sharding
+	o.NewCompactorFunc = func(ctx context.Context, r prometheus.Registerer, l *slog.Logger, ranges []int64, pool chunkenc.Pool, opts *tsdb.Options) (tsdb.Compactor, error) {
+		lc, err := tsdb.NewLeveledCompactorWithOptions(ctx, r, l, ranges, pool, tsdb.LeveledCompactorOptions{
+			MaxBlockChunkSegmentSize:    opts.MaxBlockChunkSegmentSize,
+			EnableOverlappingCompaction: opts.EnableOverlappingCompaction,
+			PD:                          opts.PostingsDecoderFactory,
+			UseUncachedIO:               opts.UseUncachedIO,
+		})
+		if err != nil {
+			return nil, err
+		}
+		return &faultyCompactor{Compactor: lc, e: e}, nil
+	}
 	o.EnableExemplarStorage = c.Exemplars
 	if c.Exemplars {
 		o.MaxExemplars = 16
@@ -1567,7 +1609,7 @@ func alignedEnd(t, width int64) int64 {
 
 func needsClosedApps(k string) bool {
 	switch k {
-	case "compact", "compacthead", "compactooo", "compactstale", "compactsel", "cleantomb", "restart":
+	case "compact", "compacthead", "compactooo", "compactstale", "compactsel", "cleantomb", "restart", "compactfail":
 		return true
 	}
 	return false
@@ -1676,6 +1718,25 @@ func (e *exec) step(o Op) {
 			e.fail("compact-error", "compact-error", "op %d: Compact failed: %v", e.opIdx, err)
 			break
 		}
+		e.afterCompaction()
+	case "compactfail":
+		// a compaction whose first block write fails: Compact must report the error and nothing may be lost, now or
+		// after the next restart / crash
+		e.closeApps(o.N%2 == 0)
+		if e.failed {
+			break
+		}
+		e.failArm = 1
+		err := e.db.Compact(ctx)
+		if e.failArm == 0 && err == nil {
+			e.fail("compact-error", "failed-block-write-not-reported", "op %d: a block write failed (injected) but Compact returned nil", e.opIdx)
+			break
+		}
+		if err != nil && !strings.Contains(err.Error(), "injected fault") {
+			e.fail("compact-error", "compact-error", "op %d: Compact failed: %v", e.opIdx, err)
+			break
+		}
+		e.failArm = 0
 		e.afterCompaction()
 	case "compacthead":
 		e.closeApps(true)
